@@ -127,12 +127,12 @@ func (g *p01Gen) call() {
 			g.callees = 7
 		}
 		g.calleeKind = ndChoice("callee", g.callees)
-		if g.calleeKind == 5 {
+		if g.calleeKind == 5 || g.calleeKind == 10 {
 			g.calleeFlag = ndBool("calleeflag")
 		}
 	}
 	callText := "\tx = callee(y)"
-	if g.calleeKind >= 7 {
+	if g.calleeKind >= 7 && g.calleeKind <= 9 {
 		callText = "\tx = callee(x, y)" // two parameters
 	}
 	callLine := g.emit(callText)
@@ -159,6 +159,8 @@ func (g *p01Gen) call() {
 		ret = ndIteBool(g.calleeFlag, true, arg)
 	case 6:
 		ret = g.gval()
+	case 10: // recursive: callee(a) returns callee(nil) behind an opaque flag, else a
+		ret = ndIteBool(g.calleeFlag, true, arg)
 	case 7: // callee(a, b) returns b
 		ret = g.y
 	case 8: // callee(a, b) dereferences a, returns b
@@ -236,6 +238,15 @@ func (g *p01Gen) emitCallee() int {
 	}
 	if len(anns) > 0 {
 		g.emit("// " + strings.Join(anns, ", "))
+	}
+	if g.calleeKind == 10 {
+		g.calleeFirst = g.emit("func callee(a *int) *int {")
+		g.emit("\tif calleeflag {")
+		g.emit("\t\treturn callee(nil)")
+		g.emit("\t}")
+		g.emit("\treturn a")
+		g.calleeLast = g.emit("}")
+		return calleeDeref
 	}
 	if g.calleeKind >= 7 {
 		g.calleeFirst = g.emit("func callee(a, b *int) *int {")
